@@ -42,8 +42,8 @@ theorem withFrames_pinned : Gen.withFrames = [
   ("write_excel", [("call write_excel_func", [])], [], [], []),
   ("read_sheets", [("yield", ["either(nullcontext(<param>), open(<param>))",
     "closing(openpyxl.load_workbook(<local>))"])], [], [], []),
-  ("write_excel_openpyxl", [("call _append_table_to_openpyxl_worksheet", []), ("call <local>.save", []),
-    ("call <local>.write", ["open(<param>)"]), ("call <local>.save", [])], [], [], []),
+  ("write_excel_openpyxl", [("call <local>.save", []), ("call <local>.save", []),
+    ("call <local>.write", ["open(<param>)"]), ("call _append_table_to_openpyxl_worksheet", [])], [], [], []),
   ("write_excel_xlsxwriter", [("call _append_table_to_xlsxwriter_worksheet", [])],
     ["xlsxwriter.Workbook(<param>, <param>)"], ["<param>.items"], ["<local>.close()"]),
   ("FileReader.read", [("yield from read_csv", []), ("yield from read_excel", [])], [], [], []),
@@ -1432,7 +1432,7 @@ theorem unmanaged_rows_defer :
     the exception. -/
 def directSaveTable : Table :=
   Gen.withFrames.map fun r => if r.name == "write_excel_openpyxl" then
-    ("write_excel_openpyxl", [("call _append_table_to_openpyxl_worksheet", []), ("call <local>.save", [])],
+    ("write_excel_openpyxl", [("call <local>.save", []), ("call _append_table_to_openpyxl_worksheet", [])],
       [], [], []) else r
 
 theorem unbuffered_save_defers :
